@@ -440,6 +440,14 @@ def rule_set_algebra(run, F, cfg):
     ok = any(re.search(r"Blocker::tags_enabled\(arg:self\.blocker\)", f.expr_operand(t["args"][0]))
              and "arg:tag" in f.expr_operand(t["args"][1])
              for b, t in f.calls(r"(slice|HashSet|Vec)::contains$"))
+    if not ok:
+        # the same membership test written as `tags_enabled().iter().any(|t| t == tag)`
+        for b, t in f.calls(r"Iterator>?::any$"):
+            m_ = re.search(r"closure\[([^\]]+)\]", f.expr_operand(t["args"][1])) if len(t["args"]) > 1 else None
+            c_ = F.fns.get(m_.group(1)) if m_ else None
+            if c_ is not None and re.search(r"Blocker::tags_enabled\(arg:self\.blocker\)", f.expr_operand(t["args"][0])) \
+                    and re.match(r"^(<.*PartialEq<.*>>::eq|std::cmp::impls::eq)\((arg:\w+, up:tag|up:tag, arg:\w+)\)$", c_.expr_local(0)):
+                ok = True
     g = F.fn(B + "tags_enabled")
     run.touched(g)
     src = _deep_origins(g, {"k": "copy", "pl": {"l": 0, "p": []}})
